@@ -33,6 +33,7 @@ def run(ctx: Ctx):
     who_charges(ctx)
     ctx.attempt(gained_equals_stored, ctx)
     ctx.attempt(dispensed_keys, ctx)
+    ctx.attempt(rules.rule_initial_tallies, ctx, "D6", {"Vehicle": ["energy_gained", "balance"], "Station": ["energy_dispensed", "balance"]})
     ctx.floor("DU.same-value", 3)
     ctx.floor("DU.setter", 4)
     ctx.floor("WMC", 8)
